@@ -12,6 +12,17 @@ pub fn now() -> i64 {
     dt.timestamp_millis()
 }
 
+///
+/// true when `date` and `date_next_day` are defined for this time: dates received from peers must be
+/// checked before they reach those functions
+///
+pub fn is_valid_date(date_time: i64) -> bool {
+    match DateTime::from_timestamp_millis(date_time) {
+        Some(date) => date.checked_add_signed(Duration::days(1)).is_some(),
+        None => false,
+    }
+}
+
 //returns the date without time
 pub fn date(date_time: i64) -> i64 {
     let date = DateTime::from_timestamp_millis(date_time).unwrap();
